@@ -20,6 +20,10 @@ try:
     rc, out = sh(f"git -C /repo worktree add -q {wt} HEAD")
     assert rc == 0, out
     rc, out = sh(f"git apply {seed}/patch.diff", cwd=wt)
+    if rc != 0:
+        # the patch was written against an earlier HEAD of /repo (before a later `fix:` commit touched the same lines)
+        rc, out = sh(f"git apply --3way {seed}/patch.diff", cwd=wt)
+        res["applied_3way"] = rc == 0
     res["applies"] = rc == 0
     if rc != 0:
         res["apply_error"] = out[-300:]
@@ -51,7 +55,7 @@ try:
         res["check_rc"] = rc
         res["check_wall"] = round(time.time() - t0, 1)
         res["check_lines"] = [l for l in out.splitlines() if l.startswith("VIOLATION") or l.startswith("[") or "FAILURE" in l or "ERROR" in l][-4:]
-        sh("git checkout -q -- .", cwd=wt)
+        sh("git reset -q --hard HEAD", cwd=wt)     # (a 3-way apply stages the patch: restore index and tree)
         rc, out = sh(f"/venv/bin/python {seed}/demo.py", cwd=wt, timeout=600)
         res["demo_original_rc"] = rc
 finally:
